@@ -312,3 +312,13 @@ Theorem C04_rtl_xy_decision :
   = [Some dir_N; Some dir_E; Some dir_S; Some dir_W; Some dir_Eject].
 Proof. vm_compute. auto. Qed.
 Print Assumptions C04_rtl_xy_decision.
+
+(* the two masks of floo_router.sv, read from its generate conditions (gen_inout_identical, gen_xy_opt) and evaluated for
+   inputs / outputs 0..4: Hw.walk blocks exactly the pairs the router does not forward -- loop-back always, Y-to-X
+   turns under XY routing *)
+Theorem C04_rtl_router_masks :
+  forallb (fun e => Bool.eqb (snd e) (negb ((fst (fst e) =? snd (fst e)) || xy_masked (fst (fst e)) (snd (fst e))))) rtl_router_forward_xy = true /\
+  forallb (fun e => Bool.eqb (snd e) (negb (fst (fst e) =? snd (fst e)))) rtl_router_forward_id = true /\
+  length rtl_router_forward_xy = 25%nat /\ length rtl_router_forward_id = 25%nat.
+Proof. vm_compute. auto. Qed.
+Print Assumptions C04_rtl_router_masks.
